@@ -13,6 +13,7 @@ import (
 	"net/netip"
 	"testing"
 	"time"
+	_ "time/tzdata" // zones with daylight saving for Interval.Add, independent of the host's zoneinfo
 
 	"github.com/ClickHouse/ch-go/proto"
 	"pgregory.net/rapid"
@@ -42,6 +43,38 @@ func civilFromDays(z int64) (int, int, int) {
 		y++
 	}
 	return int(y), int(m), int(d)
+}
+
+// daysFromCivil is the inverse of civilFromDays (Hinnant), again without package time.
+func daysFromCivil(y, m, d int) int64 {
+	yy := int64(y)
+	if m <= 2 {
+		yy--
+	}
+	era := yy / 400
+	if yy < 0 {
+		era = (yy - 399) / 400
+	}
+	yoe := yy - era*400
+	mp := int64(m) - 3
+	if m <= 2 {
+		mp = int64(m) + 9
+	}
+	doy := (153*mp+2)/5 + int64(d) - 1
+	doe := yoe*365 + yoe/4 - yoe/100 + doy
+	return era*146097 + doe - 719468
+}
+
+// dstZones: zones with daylight saving and no skipped calendar day since 1900; wall clocks
+// between 04:00 and 22:00 exist exactly once on every day there.
+func dstZones() []*time.Location {
+	var zs []*time.Location
+	for _, n := range []string{"America/New_York", "Europe/Berlin", "Australia/Lord_Howe", "America/Sao_Paulo", "Asia/Tehran"} {
+		if l, err := time.LoadLocation(n); err == nil {
+			zs = append(zs, l)
+		}
+	}
+	return zs
 }
 
 func fixedZones() []*time.Location {
@@ -476,9 +509,39 @@ func TestC20IP(t *testing.T) {
 		}
 		var b [16]byte
 		copy(b[:], rapid.SliceOfN(rapid.Byte(), 16, 16).Draw(rt, "ipv6"))
+		// Special blocks of the address space that 128 random bits never reach: IPv4-mapped,
+		// IPv4-compatible, NAT64, 6to4, loopback, unspecified, link-local, all ones.
+		switch rapid.IntRange(0, 11).Draw(rt, "ipv6-class") {
+		case 0:
+			copy(b[:12], []byte{0, 0, 0, 0, 0, 0, 0, 0, 0, 0, 0xff, 0xff})
+		case 1:
+			copy(b[:12], make([]byte, 12))
+		case 2:
+			copy(b[:12], []byte{0, 0x64, 0xff, 0x9b, 0, 0, 0, 0, 0, 0, 0, 0})
+		case 3:
+			b[0], b[1] = 0x20, 0x02
+		case 4:
+			b = [16]byte{15: 1}
+		case 5:
+			b = [16]byte{}
+		case 6:
+			b[0], b[1] = 0xfe, 0x80
+		case 7:
+			for i := range b {
+				b[i] = 0xff
+			}
+		}
 		v6 := proto.IPv6(b)
 		if v6.ToIP().As16() != b {
 			rt.Fatalf("IPv6.ToIP().As16() differs for %x", b)
+		}
+		if want6 := netip.AddrFrom16(b); v6.ToIP() != want6 || v6.String() != want6.String() || !v6.ToIP().Is6() {
+			rt.Fatalf("IPv6(%x).ToIP() = %v (String %q), want the 16-byte address %v", b, v6.ToIP(), v6.String(), want6)
+		}
+		var c6 proto.ColIPv6
+		c6.Append(v6)
+		if c6.Row(0) != v6 || c6.Row(0).ToIP() != netip.AddrFrom16(b) {
+			rt.Fatalf("ColIPv6 row %v differs from the appended %v", c6.Row(0).ToIP(), netip.AddrFrom16(b))
 		}
 		if proto.ToIPv6(netip.AddrFrom16(b)) != v6 {
 			rt.Fatalf("ToIPv6(AddrFrom16) differs for %x", b)
@@ -509,29 +572,57 @@ func addMonthsIndep(t time.Time, n int64) time.Time {
 }
 
 func TestC20Interval(t *testing.T) {
-	zs := fixedZones()
+	fixed := fixedZones()
+	zs := append(append([]*time.Location{}, fixed...), dstZones()...)
 	st := stats.G()
+	// Seconds per unit (an upper bound for the calendar units): bounds the spans drawn so that
+	// base and result both stay inside 1900..2299, the widest documented range.
+	unitSec := map[proto.IntervalScale]int64{
+		proto.IntervalSecond: 1, proto.IntervalMinute: 60, proto.IntervalHour: 3600, proto.IntervalDay: 86400, proto.IntervalWeek: 7 * 86400,
+		proto.IntervalMonth: 31 * 86400, proto.IntervalQuarter: 92 * 86400, proto.IntervalYear: 366 * 86400,
+	}
+	const loUnix, hiUnix = -2208988800, 10413791999
 	rapid.Check(t, func(rt *rapid.T) {
 		zi := rapid.IntRange(0, len(zs)-1).Draw(rt, "zone")
+		dst := zi >= len(fixed)
 		y := rapid.IntRange(1900, 2299).Draw(rt, "year")
 		mo := rapid.IntRange(1, 12).Draw(rt, "month")
 		d := rapid.IntRange(1, 28).Draw(rt, "day")
 		sec := rapid.IntRange(0, 86399).Draw(rt, "sec")
+		if dst {
+			sec = 4*3600 + sec%(18*3600) // a wall clock that exists exactly once on every day
+		}
 		ns := rapid.IntRange(0, 999_999_999).Draw(rt, "ns")
 		base := time.Date(y, time.Month(mo), d, 0, 0, sec, ns, zs[zi])
 		scale := proto.IntervalScale(rapid.IntRange(0, 7).Draw(rt, "scale"))
-		n := rapid.OneOf(rapid.Int64Range(-2000, 2000), rapid.Int64Range(-3, 3)).Draw(rt, "n")
+		var n int64
+		switch rapid.IntRange(0, 3).Draw(rt, "span-class") {
+		case 0:
+			n = rapid.Int64Range(-3, 3).Draw(rt, "n")
+		case 1:
+			n = rapid.Int64Range(-2000, 2000).Draw(rt, "n")
+		default:
+			// anywhere inside the documented range, e.g. +120 000 days or +10^10 seconds
+			u := unitSec[scale]
+			n = rapid.Int64Range((loUnix-base.Unix())/u, (hiUnix-base.Unix())/u).Draw(rt, "n")
+			st.Label("interval-span:whole-range")
+		}
 		got := proto.Interval{Scale: scale, Value: n}.Add(base)
 		var want time.Time
-		unit := map[proto.IntervalScale]time.Duration{
-			proto.IntervalSecond: time.Second, proto.IntervalMinute: time.Minute, proto.IntervalHour: time.Hour,
-			proto.IntervalDay: 24 * time.Hour, proto.IntervalWeek: 7 * 24 * time.Hour,
+		clock := func(yy, mm, dd int) time.Time {
+			return time.Date(yy, time.Month(mm), dd, base.Hour(), base.Minute(), base.Second(), base.Nanosecond(), zs[zi])
 		}
 		switch scale {
-		case proto.IntervalSecond, proto.IntervalMinute, proto.IntervalHour, proto.IntervalDay, proto.IntervalWeek:
-			// Fixed zones: a day is exactly 24h. Instant arithmetic done on unix seconds.
-			delta := n * int64(unit[scale]/time.Second)
-			want = time.Unix(base.Unix()+delta, int64(base.Nanosecond())).In(zs[zi])
+		case proto.IntervalSecond, proto.IntervalMinute, proto.IntervalHour:
+			// Elapsed time: arithmetic on unix seconds, in any zone.
+			want = time.Unix(base.Unix()+n*unitSec[scale], int64(base.Nanosecond())).In(zs[zi])
+		case proto.IntervalDay, proto.IntervalWeek:
+			// Calendar days: the same wall clock n (7n) days later, by civil-day arithmetic.
+			k := n
+			if scale == proto.IntervalWeek {
+				k = 7 * n
+			}
+			want = clock(civilFromDays(daysFromCivil(y, mo, d) + k))
 		case proto.IntervalMonth:
 			want = addMonthsIndep(base, n)
 		case proto.IntervalQuarter:
@@ -540,8 +631,11 @@ func TestC20Interval(t *testing.T) {
 			want = addMonthsIndep(base, 12*n)
 		}
 		nt := n != 0 && (scale >= proto.IntervalMonth || zi != 12)
+		if dst {
+			st.Label("interval-zone:daylight-saving")
+		}
 		st.Case(stats.Hash("iv", zi, y, mo, d, sec, ns, int(scale), n), nt, func() any {
-			return map[string]any{"kind": "Interval.Add", "base": base.Format(time.RFC3339Nano), "scale": scale.String(), "n": n}
+			return map[string]any{"kind": "Interval.Add", "base": base.Format(time.RFC3339Nano), "zone": zs[zi].String(), "scale": scale.String(), "n": n}
 		})
 		if got.Equal(want) && got.Location() == base.Location() {
 			return
